@@ -375,7 +375,12 @@ pub(crate) fn finalize_insertion_ctx(insertion_ctx: &mut InsertionContext) {
     // before the state handlers run (per-solution values would count it) and after them (they may empty a tour)
     insertion_ctx.solution.remove_empty_routes();
     insertion_ctx.problem.goal.accept_solution_state(&mut insertion_ctx.solution);
+    // NOTE a state handler may take the last job out of a tour: per-solution values are computed again without it
+    let routes = insertion_ctx.solution.routes.len();
     insertion_ctx.solution.remove_empty_routes();
+    if routes != insertion_ctx.solution.routes.len() {
+        insertion_ctx.problem.goal.accept_solution_state(&mut insertion_ctx.solution);
+    }
 }
 
 pub(crate) fn apply_insertion_success(insertion_ctx: &mut InsertionContext, success: InsertionSuccess) {
